@@ -1,7 +1,6 @@
 package checks
 
 import (
-	"fmt"
 	"math"
 
 	"github.com/golang/geo/s1"
@@ -21,8 +20,6 @@ import (
 func init() {
 	Registry["C02"] = &Check{Level: "exploration", QuickBudget: 150, ThoroughBudget: 1200, Run: runC02}
 }
-
-func ptStr(p s2.Point) string { return fmt.Sprintf("(%v,%v,%v)", p.X, p.Y, p.Z) }
 
 func c02Alphabet(c *core.Ctx) []s2.Point {
 	big := !c.Quick()
